@@ -234,6 +234,10 @@ def check_structure(spec, start, allowed, ctx, rules_list=None, tag="C02"):
                 ctx.probe(kind + "_with_statistics_in_spec")
             if kind == "quotient" and not any(ch.is_atom() for ch in base.original_rule.children):
                 ctx.probe("quotient_of_two_non_atoms_in_spec")
+        if type(rule.strategy).__name__ == "ExpandFolded":
+            ctx.probe("user_constructor_rule_in_spec")
+            if all(WW.truth_empty(ch) for ch in rule.children):
+                ctx.probe("rule_with_only_empty_children_in_spec")
         if isinstance(rule, EquivalencePathRule):
             ctx.probe("eqv_path_in_spec")
             if any(isinstance(r, ReverseRule) or (isinstance(r, EquivalenceRule) and isinstance(r.original_rule, ReverseRule)) for r in rule.rules):
